@@ -7,7 +7,9 @@ for f in sorted(glob.glob(os.path.join(root, 'seeded', '*', 'meta.json'))):
     metas[os.path.basename(os.path.dirname(f))] = json.load(open(f))
 rounds = sorted({k.split('-')[1] for k in metas})
 n = len(metas)
-strengthened = [k for k, m in metas.items() if m.get('strengthened')]
+notes_file = os.path.join(root, 'seeded', 'NOTES.json')
+notes = json.load(open(notes_file)) if os.path.exists(notes_file) else {}
+strengthened = [k for k, m in metas.items() if k in notes or m.get('strengthened')]
 table = subprocess.run(['python3', os.path.join(root, 'tools', 'seeded_table.py')], capture_output=True, text=True).stdout
 text = f'''## 10. Seeded changes: which checks catch which
 
